@@ -83,6 +83,65 @@ def abandonStatement (st dir : String) : Option String :=
   else if dir ≠ "0" then some "abandoned-sorter-leaves-its-directory-behind"
   else none
 
+/-! ### fourth wave (seeded changes C13-m7, C13-m8, C11-m7) -/
+
+open Biogo.Drive.C11 in
+/-- `surfaceStatement` for a program with cycles abandoned with `Clear` (segments `sg`). -/
+def surfaceStatementA (ac : Bool) (sg : List Seg) (ops : List Op) (outs : List Out) : Option String :=
+  let firstBad := outs.find? notOk
+  if firstBad.any (fun o => o.res == .panic || o.res == .hang) then
+    some "a-call-panicked-before-any-error-was-returned"
+  else if firstBad.isSome then none
+  else (programStatementA ac sg ops outs).map (fun why => s!"success-reported-throughout-but:{why}")
+
+/-- `recoveryStatement` for programs with abandoned cycles after a recovery. -/
+def recoveryStatementA (ac : Bool) : Nat → List Op → List Out → Option String
+  | 0, _, _ => none
+  | n + 1, ops, outs =>
+    match afterRecovery ops outs with
+    | none => none
+    | some (ops', outs') =>
+      match Biogo.Drive.C11.segsOf ac (Biogo.Morass.dropRejects ops') with
+      | none => none
+      | some sg' =>
+        match surfaceStatementA ac sg' ops' outs' with
+        | some why => some s!"after-recovery:{why}"
+        | none => recoveryStatementA ac n ops' outs'
+
+/-- "… after draining a sorter that has AutoClean set the temporary directory no longer exists, and
+    draining with AutoClear set leaves no run files in it" - at *every* drain of the program (a
+    `Pull` that returned io.EOF), on the listing the harness took when that call had returned
+    (`-1` = no directory).  Whatever happened before: cycles abandoned with `Clear`, earlier
+    reported failures the caller recovered from. -/
+def drainResidue (ac aclean : Bool) : List Out → List (Int × Nat) → Option String
+  | o :: outs, (ls, _) :: tr =>
+    if o.res == .eof && aclean && ls ≠ -1 then some "autoclean-drain-leaves-the-directory"
+    else if o.res == .eof && ac && ls > 0 then some "autoclear-drain-leaves-run-files"
+    else drainResidue ac aclean outs tr
+  | _, _ => none
+
+/-- C11 on a recovered sorter ("whatever earlier cycles did"): after a reported I/O error the
+    caller's next call is `Clear`; when that `Clear` has succeeded, a call returns an I/O error only
+    if an injected failure has fired since (`fired` = the harness's count of faults that have
+    fired, sampled when each call returned) - otherwise the cycle that follows cannot be completed
+    although nothing fails in it.  `base` = the count at the last recovering `Clear`;
+    `afterErr` = the previous call returned an I/O error (so this one is that `Clear`). -/
+def staleError : List Out → List (Int × Nat) → Option Nat → Bool → Option String
+  | o :: outs, (_, f) :: tr, base, afterErr =>
+    if o.res == .ioerr then
+      if base == some f then some "after-recovery:io-error-returned-though-no-operation-failed-since-the-successful-clear"
+      else staleError outs tr none true
+    else if afterErr then staleError outs tr (if o.res == .ok then some f else none) false
+    else staleError outs tr base false
+  | _, _, _, _ => none
+
+/-- candidates for what a run file cut short on disk amounts to in the model: nothing (the cut
+    value is never read), or the failure of one `Decode` in `Finalise` or in `Pull` -/
+def truncCandidates (w : Work) : List Fault :=
+  let k := (w.ops.filter (fun o => match o with | .push _ => true | _ => false)).length + 2
+  [w.flt] ++ (List.range k).map (fun i => w.flt ++ [(Pt.fdecode, i)])
+          ++ (List.range k).map (fun i => w.flt ++ [(Pt.pdecode, i)])
+
 def handleTokens (inp : List String) (obs : String) : Verdict :=
   match inp with
   | "x" :: rest =>
@@ -90,7 +149,10 @@ def handleTokens (inp : List String) (obs : String) : Verdict :=
     | none => bad "x"
     | some w =>
       let r := runWork w
-      let implToks := tokens obs
+      -- the last token of a C13 observation is the listing / fired-faults trace
+      let allToks := tokens obs
+      let trace : Option (List (Int × Nat)) := allToks.getLast?.bind parseTrace
+      let implToks := if trace.isSome then allToks.dropLast else allToks
       -- which of two files with equal head keys is exhausted first decides how many run files
       -- are present when a drain stops early: below the level of the observation
       let keys := w.ops.filterMap (fun o => match o with | .push e => some e.key | _ => none)
@@ -99,8 +161,21 @@ def handleTokens (inp : List String) (obs : String) : Verdict :=
         match tokens s with
         | fl :: st :: _ :: rest => " ".intercalate (fl :: st :: "*" :: rest)
         | _ => s
-      let m := maskDisk (modelRender r)
-      let impl := maskDisk (implRender implToks)
+      -- model and implementation listings at the drains and Clears (compared; masked like `disk`)
+      let implOuts : List Out := ((implToks.drop 5).mapM parseOutE).getD []
+      let lsView (outs : List Out) (ls : List Int) : String :=
+        if trace.isNone || w.abandon then "" else if keys.Nodup then " ls=" ++ lsRender outs ls else " ls=*"
+      let view (w' : Work) : String :=
+        let r' := runWork w'
+        maskDisk (modelRender r') ++ lsView r'.outs (lsTrace w')
+      let impl := maskDisk (implRender implToks) ++ lsView implOuts ((trace.getD []).map (·.1))
+      -- a run file cut short on disk: the model's counterpart is some single Decode failure (or
+      -- none, when the cut value is never read)
+      let m := if w.trunc then
+                 match (truncCandidates w).find? (fun f => view { w with flt := f } == impl) with
+                 | some f => view { w with flt := f }
+                 | none => view w
+               else view w
       let fired := decide (r.final.flt.length < w.flt.length)
       let allFired := !w.flt.isEmpty && r.final.flt.isEmpty
       let recovered := (afterRecovery w.ops r.outs).isSome
@@ -116,6 +191,8 @@ def handleTokens (inp : List String) (obs : String) : Verdict :=
                   ++ (if recovered then ["recovered"] else [])
                   ++ (if recovered && allFired && w.flt.length ≥ 2 then ["second-fault-fired-after-recovery"] else [])
                   ++ (if w.reuse then ["reuse"] else [])
+                  ++ (if w.trunc then ["run-file-truncated", "nt"] else [])
+                  ++ (w.kinds.eraseDups.map (fun k => "error-kind-" ++ k))
                   ++ (if w.abandon then ["abandon"] ++ (if r.inflight > 0 then ["abandon-writers-in-flight", "nt"] else []) else [])
                   ++ (if w.aclean then ["autoclean"] else []) ++ (if w.ac then ["autoclear"] else [])
       -- an abandoned sorter: the statement about the directory comes first (the program need not
@@ -130,10 +207,15 @@ def handleTokens (inp : List String) (obs : String) : Verdict :=
       match abandonFail with
       | some why => fail why tags
       | none =>
-      match Biogo.Morass.historyOf w.ac (Biogo.Morass.dropRejects w.ops) with
+      let hOpt := Biogo.Morass.historyOf w.ac (Biogo.Morass.dropRejects w.ops)
+      -- (fourth wave) the same with cycles abandoned with Clear before Finalise
+      match Biogo.Drive.C11.segsOf w.ac (Biogo.Morass.dropRejects w.ops) with
       | none => if m == impl then ok (tags ++ ["illformed"]) else diff m (tags ++ ["illformed"])
-      | some h =>
-        let tags := tags ++ (if w.flt.isEmpty && lastDrained h && (w.ac || w.aclean) then ["nt", "residue"] else [])
+      | some sg =>
+        let h := Biogo.Drive.C11.cyclesOf sg
+        let dropped := Biogo.Drive.C11.hasDropped sg
+        let tags := tags ++ (if w.flt.isEmpty && hOpt.isSome && lastDrained h && (w.ac || w.aclean) then ["nt", "residue"] else [])
+                         ++ (if dropped then ["abandoned-cycle", "nt"] else [])
         if obs == "crash" || obs.startsWith "panic" then fail "harness-process-or-goroutine-panicked" tags
         else if obs == "hang" then fail "hang" tags
         else if w.chunk = 0 then (if m == impl then ok tags else diff m tags)
@@ -146,10 +228,21 @@ def handleTokens (inp : List String) (obs : String) : Verdict :=
             | none => fail "unparsable-observation" tags
             | some outs =>
               let reported := reported outs
-              match (surfaceStatement w.ac h w.ops outs).orElse
-                      (fun _ => recoveryStatement w.ac outs.length w.ops outs) with
+              -- the proved-sound statements on a program that is a history; the same with abandoned
+              -- cycles (they coincide without them: `programStatementA_cycles`)
+              let st1 : Option String := match hOpt with
+                | some h0 => (surfaceStatement w.ac h0 w.ops outs).orElse
+                               (fun _ => recoveryStatement w.ac outs.length w.ops outs)
+                | none => none
+              let st2 := st1.orElse (fun _ => (surfaceStatementA w.ac sg w.ops outs).orElse
+                               (fun _ => recoveryStatementA w.ac outs.length w.ops outs))
+              let trc := if (trace.getD []).length == outs.length then trace.getD [] else []
+              let st3 := st2.orElse (fun _ => (drainResidue w.ac w.aclean outs trc).orElse
+                               (fun _ => if w.aclean then none else staleError outs trc none false))
+              match st3 with
               | some why => fail why tags
               | none =>
+                if hOpt.isNone then (if m == impl then ok tags else diff m tags) else
                 if w.flt.isEmpty && !reported && lastDrained h && w.aclean && dir ≠ "0" then
                   fail "autoclean-drain-leaves-the-directory" tags
                 else if w.flt.isEmpty && !reported && lastDrained h && w.ac && dir == "1" && disk ≠ "0" then
